@@ -10,13 +10,22 @@ Per run:
      is extracted and handed to the model (parameter [remask]);
  (2) correspondence: every output of the seven functions on generated spectra vs the Coq model over Q
      (Qln, Qexp, Qlgamma), compared inside Coq (masks exactly, values to 1e-9 x conditioning scale);
- (3) the property predicates evaluated directly on the implementation's outputs.
+ (3) the property predicates evaluated directly on the implementation's outputs;
+ (4) argument types and hidden content (harness/props/c11_types.py, stream 'containers', every run): systematic base
+     cases handed to every entry point in every container the API accepts (dadi.Spectrum, plain numpy.ma.MaskedArray of
+     float64 / float32 / integer counts, C / Fortran / strided, hard mask, view of a Spectrum; nomask / ndarray / list
+     where accepted = nothing masked) and with arbitrary raw content (0, negative, nan, +-inf, huge, tiny, mixtures)
+     stored under the masked entries of model and data; each variant vs the canonical Spectrum call and vs the
+     predicates of (3).  Model side: C11_hidden_content_irrelevant.  When a source obligation of (1) no longer checks,
+     the same stream is re-drawn in two more rounds at the thorough tier's sizes (targeted search) before anything is
+     reported without a failing input.
 """
 import ast, json, math, os
 from fractions import Fraction
 from harness import lib
 from harness.lib import q, b
 from harness.translate import pyexpr
+from harness.props import c11_types
 
 INFERENCE = os.path.join(lib.REPO, 'dadi', 'Inference.py')
 NUMERICS = os.path.join(lib.REPO, 'dadi', 'Numerics.py')
@@ -292,9 +301,13 @@ def py_fold(vals, mask, tot, N):
 
 SCAN = [0.5, 0.8, 0.96875, 0.9990234375, 1.0, 1.0009765625, 1.03125, 1.25, 2.0]
 
-def gen_one(rng, cid, stream, big=False):
+def gen_one(rng, cid, stream, big=False, force=None):
+    """force (stream 'containers'): dict overriding ndim / kind / d_folded / m_folded / corners / mask densities AFTER the
+    random draw, so that the other streams see the same random numbers as before."""
+    force = force or {}
     for _attempt in range(200):
         ndim = rng.choice([1, 1, 2, 2, 3])
+        ndim = force.get('ndim', ndim)
         if big:                                     # thorough tier only: larger sample sizes
             shape = [[rng.randint(14, 41)], [rng.randint(5, 12), rng.randint(6, 12)],
                      [rng.randint(3, 6), rng.randint(4, 6), rng.randint(4, 7)]][ndim - 1]
@@ -313,11 +326,14 @@ def gen_one(rng, cid, stream, big=False):
         d_folded = rng.random() < 0.35
         m_folded = d_folded and rng.random() < 0.3
         kind = rng.choice(['int', 'int', 'dyadic', 'dyadic', 'projected'])
+        corners = force.get('corners', corners); d_folded = force.get('d_folded', d_folded)
+        m_folded = force.get('m_folded', m_folded); kind = force.get('kind', kind)
         if stream == 'foldmismatch':
             d_folded, m_folded, kind = False, True, 'int'
         c['data_kind'] = kind; c['corners'] = corners
         # masks
         pd = rng.choice([0, 0, 0.1, 0.3]); pm = rng.choice([0, 0, 0.1, 0.3])
+        pd = force.get('pd', pd); pm = force.get('pm', pm)
         d_mask = [rng.random() < pd for _ in range(n)]
         m_mask = [rng.random() < pm for _ in range(n)]
         for mk, unm in ((d_mask, corners in ('unmasked', 'data_unmasked')), (m_mask, corners in ('unmasked', 'model_unmasked'))):
@@ -380,7 +396,7 @@ def gen_one(rng, cid, stream, big=False):
                 continue
         c.update({'d_vals': d_vals, 'd_mask': d_mask, 'd_folded': d_folded, 'm_vals': m_vals, 'm_mask': m_mask, 'm_folded': m_folded})
         c['cut'] = rng.choices([None, 0.0, rng.choice([0.25, 0.5, 1.0, 1.5, 4.0])], [50, 15, 35])[0]
-        c['scan'] = SCAN if stream == 'regular' else []
+        c['scan'] = SCAN if stream == 'regular' else SCAN[2:7:2] if stream == 'containers' else []
         c['rescale'] = rng.sample([0.25, 0.5, 3.0, 10.0, 1.0 / 1024, 7.5], 2) if stream != 'foldmismatch' else []
         if stream == 'regular' and rng.random() < 0.5:
             K = 3
@@ -400,6 +416,29 @@ def gen_cases(ctx):
         cases.append(gen_one(rng, len(cases), 'malformed'))
     for _ in range(nfm):
         cases.append(gen_one(rng, len(cases), 'foldmismatch'))
+    return cases
+
+def gen_container_cases(ctx, first_id, rounds, big, coq_rounds=99):
+    """stream 'containers' (c11_types): systematic bases -- dimension 1-3 x integer / non-integer data, unfolded, with the
+    full container and hidden-content lists; folded data with an unfolded (auto-fold) and with a folded model, Spectrum
+    containers.  Drawn after all other streams."""
+    rng = ctx.rng
+    cases = []
+    for rd in range(rounds):
+        for ndim in (1, 2, 3):
+            for kind in ('int', 'dyadic'):
+                plans = [(False, False, True)]
+                if (ndim + rd) % 2 == (kind == 'int'):
+                    plans += [(True, False, False), (True, True, False)]
+                for d_folded, m_folded, full in plans:
+                    force = {'ndim': ndim, 'kind': kind, 'd_folded': d_folded, 'm_folded': m_folded, 'corners': 'masked',
+                             'pd': 0.25, 'pm': 0.25}
+                    c = gen_one(rng, first_id + len(cases), 'containers', big=big and rd > 0, force=force)
+                    c.pop('perturb', None)
+                    c['variants'] = c11_types.variants_for(c, rng, full=full)
+                    if rd >= coq_rounds:
+                        c['search'] = True          # predicates and variants only, no Coq correspondence case
+                    cases.append(c)
     return cases
 
 # ------------------------------------------------------------------------------------------------
@@ -431,7 +470,7 @@ def predicates(ctx, c, r, remask):
         mv, mm = r['m_vals'], r['m_mask']
     J = [not mm[i] and not dm[i] for i in range(n)]
     Jp = [J[i] and mv[i] > 0 for i in range(n)]
-    regular = c['stream'] == 'regular'
+    regular = c['stream'] in ('regular', 'containers')
     lg = math.lgamma
     def terms(s):
         return [(-s * mv[i], dv[i] * math.log(s * mv[i]), -lg(dv[i] + 1.0)) for i in range(n) if J[i] and s * mv[i] > 0]
@@ -562,23 +601,90 @@ def predicates(ctx, c, r, remask):
     return bad
 
 # ------------------------------------------------------------------------------------------------
+# argument types and hidden content
+
+def check_variants(ctx, c, r, remask, viol):
+    """stream 'containers': every variant of base case c (record r) against the canonical call and against the property
+    predicates.  One obligation per base case; a violation (with the single failing variant as replay input) per
+    distinct (entry points, container families, filler) class."""
+    T = c11_types
+    refs = r.get('refs') or {}
+    byvid = {v['vid']: v for v in (r.get('variants') or [])}
+    failed = []
+    seen = set()
+    # the canonical calls with the masks of a mask-less container dropped are ordinary Spectrum calls: predicates on them too
+    for key, ref in refs.items():
+        cc = dict(c); cc.pop('perturb', None)
+        bad = predicates(ctx, cc, ref, remask)
+        if key != 'base' and bad:
+            failed.append('canonical call %s: %s' % (key, bad[0][0]))
+            viol('canonical Spectrum call with the mask of the mask-less side dropped (%s): %s' % (key, bad[0][0]), dict(c, variants=[]), ref, bad[0][1])
+    for v in c['variants']:
+        vr = byvid.get(v['vid'])
+        label = 'model as %s%s, data as %s%s' % (v['mc'], ' (%s under its mask)' % v['hm_name'] if 'hm' in v else '',
+                                               v['dc'], ' (%s under its mask)' % v['hd_name'] if 'hd' in v else '')
+        ctx.count('variant model=%s' % v['mc']); ctx.count('variant data=%s' % v['dc'])
+        ctx.count('variant hidden model=%s data=%s' % (v.get('hm_name', 'generated'), v.get('hd_name', 'generated')))
+        if vr is None or 'error' in vr or vr.get('ref') not in refs:
+            failed.append('%s: driver error %r' % (label, (vr or {}).get('error')))
+            viol('container variant could not be built / evaluated (%s): %r' % (label, (vr or {}).get('error')), dict(c, variants=[v]), vr)
+            continue
+        ref = refs[vr['ref']]
+        keys = T.accepted(v['mc'], v['dc'])
+        skipped = {}
+        for k in T.ALL:
+            if k not in keys:
+                skipped.setdefault('raises ' + str(vr[k].get('error', '')).split(':')[0] if isinstance(vr.get(k), dict) else 'returns', []).append(k)
+        for outcome, ks in skipped.items():
+            ctx.count('not compared (%s model, %s data; not accepted by the unchanged library) %s: %s' % (T.family(v['mc']), T.family(v['dc']), outcome, ','.join(ks)))
+        if not keys:
+            continue
+        ctx.evaluations += 1
+        f32 = T.is_f32(v['mc']) or T.is_f32(v['dc'])
+        msgs = T.compare(ref, vr, keys, T.F32 if f32 else T.F64)
+        if vr.get('inputs_unchanged') is False:
+            msgs.append('the call modified its arguments')
+        pmsgs = []
+        if not f32:                                   # float32 operands: compared with the canonical call only (2e-5)
+            cc = dict(c); cc.pop('perturb', None)
+            pmsgs = [w for w, _ in predicates(ctx, cc, T.merged_for_predicates(ref, vr, keys), remask)]
+        if msgs or pmsgs:
+            first = (pmsgs or msgs)[0]
+            failed.append('%s: %s' % (label, first))
+            cls = (v['tag'], T.family(v['mc']), T.family(v['dc']), v.get('hm_name'), v.get('hd_name'), first.split(' ')[0])
+            if cls not in seen:
+                seen.add(cls)
+                viol('%s: %s' % (label, first), dict(c, variants=[v]), {'variant': vr, 'canonical': ref, 'all': (pmsgs + msgs)[:6]})
+    ctx.obligation('case %d: %d container / hidden-content variants agree with the canonical Spectrum call and satisfy the predicates'
+                   % (c['id'], len(c['variants'])), not failed, 'predicate', '; '.join(failed[:3])[:500])
 
 def run(ctx):
     ctx.rule = ('cases = (dimension 1-3, shape, data kind integer / dyadic non-integer / really projected, zeros in the data, '
                 'independent random masks on model and data, corner masks of each, folded data with unfolded or folded model, residual mask '
                 'argument) from one PRNG; a malformed stream with zero / negative model entries and a folded-model/unfolded-data stream; '
+                'a containers stream: per round 12 systematic bases (dimension 1-3 x integer / dyadic data unfolded with all container pairs; '
+                'folded data with unfolded / folded model with Spectrum containers), each with ~80-330 variants = container of model x container '
+                'of data x raw content under the masks of model / data / both; '
                 'distinct = distinct full input; non-trivial = at least two jointly unmasked entries')
     ctx.assumptions += ['float64 outputs are compared with exact rational evaluation of the model at 1e-9 x (sum of absolute values of the terms added)',
                         'the model is run over Q with exact field operations and 96-bit fixed-point ln/exp (Model/QFast.v, error < 2^-84) and Qlgamma (Stirling series, argument shifted to >= 20, error < 1e-20); both are compared with math.log / math.lgamma on every run',
                         'data >= 0 on unmasked entries (negative data is outside the property)',
-                        'folded data are represented with zero value and mask on the entries a folded spectrum cannot have']
+                        'folded data are represented with zero value and mask on the entries a folded spectrum cannot have',
+                        'container variants: which (model container family, data container family, entry point) combinations the library accepts was established on the unchanged tree (c11_types.ACCEPTS); only those are compared (1e-10 x sum of |terms| against the canonical Spectrum call; 2e-5 when an operand is float32, where the library computes in float32); an object without a mask (numpy.ma.nomask, ndarray, list) means nothing masked']
     ctx.trusted += ['gammaln as an uninterpreted function lg in the theorems (data_multiple_is_global_max assumes lg 1 = 0; the Poisson-pmf reading assumes lg(k+1) = ln k!)',
                     'fold as a function argument with hypothesis fold(s*l) = s*fold(l); discharged for the executable instance fold_flat (C11_fold_flat_commutes_with_scaling); that fold_flat is Spectrum.fold is checked here only through the correspondence of the folded cases (C09 owns folding)',
                     'numpy masked-array semantics (numpy.ma.log/sqrt/power domains, mask propagation) are modelled by hand and covered by the correspondence only']
     remask = extract_remask(ctx)
     ctx.count('intersect_masks mask_corners=%s' % remask)
     translator_obligations(ctx)
+    # a source obligation that no longer checks: targeted search -- the container / hidden-content variants at larger
+    # sizes and in more rounds -- before anything is reported without a failing input
+    broken = [o['name'] for o in ctx.obligations if o['kind'] == 'translator' and not o['ok']]
     cases = gen_cases(ctx)
+    cases += gen_container_cases(ctx, len(cases), rounds=ctx.pick(1, 4) + (2 if broken else 0), big=bool(broken) or not ctx.quick,
+                                 coq_rounds=ctx.pick(1, 4))
+    if broken:
+        ctx.count('targeted search after a broken source obligation: extra container rounds', 2)
     if ctx.replay:
         rp = json.load(open(ctx.replay))
         if rp.get('input') and 'case' in rp['input']:
@@ -630,11 +736,16 @@ def run(ctx):
             ctx.count('cases hitting ' + QUIRK_KEY)
         for what, key in bad[:2]:
             viol(what, c, r, key)
+        if c.get('variants'):
+            check_variants(ctx, c, r, remask, viol)
         # --- correspondence case
+        if c.get('search'):
+            ctx.count('targeted-search base (no Coq correspondence case)')
+            continue
         need = ['ll', 'scal', 'llm']
         if not all(_isnum(r.get(k)) for k in need) or not all(isinstance(r.get(k), list) for k in ('llpb', 'llmpb', 'oss', 'lin', 'ans')):
             ctx.count('no_correspondence(non-finite or failed output)')
-            if c['stream'] == 'regular' and not bad:
+            if c['stream'] in ('regular', 'containers') and not bad:
                 viol('an output is non-finite / masked / failed on a regular input: %r' % ({k: r.get(k) for k in need},), c, r)
             continue
         cut = 'None' if c['cut'] is None else 'Some %s' % q(c['cut'])
